@@ -77,8 +77,8 @@ type JSJob struct {
 	Fn   string        `json:"fn,omitempty"`
 	Pre  string        `json:"pre,omitempty"`
 	Args []interface{} `json:"args,omitempty"`
-	Body string        `json:"body,omitempty"`
-	Text string        `json:"text,omitempty"`
+	Body string        `json:"body"`
+	Text string        `json:"text"`
 }
 
 // JSResult is the answer to one job.
